@@ -261,6 +261,15 @@ func (pg *peerGater) decayStats() {
 			delete(pg.ipStats, ip)
 		}
 	}
+
+	// A verdict for a message that was still in the validation pipeline when its forwarder
+	// disconnected re-creates the forwarder's entry after removePeerStats dropped it, and no
+	// further stream event will drop it again: reclaim such entries here.
+	for p, st := range pg.peerStats {
+		if st.connected == 0 && st.expire.Before(now) {
+			delete(pg.peerStats, p)
+		}
+	}
 }
 
 func (pg *peerGater) getPeerStats(p peer.ID) *peerGaterStats {
